@@ -93,6 +93,7 @@ static struct {
     int      stale; uint8_t stale_frm[8];   /* late answer of the previous transfer, delivered after the next request */
     int      done[MAXSEQ]; uint32_t code[MAXSEQ], fin_os[MAXSEQ]; int dirs[MAXSEQ];   /* per transfer: callbacks, code, object size served */
     int      act_init, tim_init;
+    int      appt, appt_age;         /* --opt appt: handle of the application timer that shares the timer list with the transfer's timeout, -1 none */
     int      chain;                  /* 1/2: the completion callback of this transfer requests an upload/download itself */
     int      chained, chain_err, chain_seen;   /* that request was issued; its return code; its initiate frames seen on the bus */
     uint64_t trace;
@@ -193,9 +194,15 @@ static void log_obs(const char *what)
 {
     if (mc_verbose) { char o[600]; w_fmt_obs(o, sizeof o); mc_log("      t=%u %s -> %s\n", W_NOW, what, o); }
 }
+/* --opt appt=1: with every accepted request the application arms a timer of its own that is due before the transfer's timeout (after 3 ticks, timeouts of 5 ticks) and deletes it two ticks later,
+ * appt=2: a timer of one tick that elapses on its own - the timeout is then not the first event of the timer list and inherits the head's remaining time */
+static int APPT_MODE;
+static void appt_cb(void *p) { (void)p; }
+static void appt_drop(void) { if (H.appt >= 0) { (void)COTmrDelete(&Node.Tmr, (int16_t)H.appt); H.appt = -1; } }
 static void do_tick(void)
 {
     w_obs_clear(); w_tick(&Node, 1); mc_steps++;
+    if (H.appt >= 0) { if (APPT_MODE == 2) H.appt = -1; else if (++H.appt_age >= 2) appt_drop(); }
     if (H.active && H.remaining > 0) H.remaining--;
     if (mc_verbose && (OBS.ntx || OBS.ncb)) log_obs("tick");
 }
@@ -353,6 +360,7 @@ static void finish(uint32_t code)
     int s = H.seq;
     H.active = 0; H.done[s]++; H.code[s] = code; H.fin_os[s] = H.os;
     mc_log("    transfer %d finished with code %08X\n", s, code);
+    appt_drop();
     if (H.chained) chain_aftermath();
     H.chain = 0;
     check_guards(s);
@@ -452,6 +460,7 @@ static void tr_request(void)
     CO_ERR err; React r; uint8_t e[8];
     CO_CSDO *c = COCSdoFind(&Node, C19_CLIENT);
     if (c == 0) { FAIL("csdo-request-refused", "COCSdoFind returns NULL for the enabled client 0 before transfer %d", H.seq); return; }
+    appt_drop();
     H.act0 = tmr_used_act(); H.tim0 = tmr_used_tim();
     w_obs_clear();
     if (H.t.dir == UP) err = COCSdoRequestUpload(c, CO_DEV(H.idx, H.sub), UB[H.seq] + GUARD, (uint32_t)H.t.size, csdo_cb, (uint32_t)H.t.to * MSPT);
@@ -467,6 +476,7 @@ static void tr_request(void)
     if (FAILED) return;
     if (H.t.dir == DOWN && H.t.size <= 4) H.off = (uint32_t)H.t.size;
     H.active = 1; H.remaining = H.t.to;
+    if (APPT_MODE && H.appt < 0 && H.t.to > 3) { H.appt = COTmrCreate(&Node.Tmr, APPT_MODE == 2 ? 1 : 3, 0, appt_cb, 0); H.appt_age = 0; }
     if (H.stale) {
         /* the late answer of the previous transfer arrives now; the real answer follows */
         H.stale = 0;
@@ -754,7 +764,7 @@ static void setup(void)
     TXID = (*pCobTx) + (*pSrvNode); RXID = (*pCobRx) + (*pSrvNode);
     CS = COCSdoFind(&Node, C19_CLIENT);
     if (CS == 0) { fprintf(stderr, "c19: SDO client 0 not available in the world\n"); exit(2); }
-    H.act_init = tmr_used_act(); H.tim_init = tmr_used_tim(); H.seq = -1;
+    H.act_init = tmr_used_act(); H.tim_init = tmr_used_tim(); H.seq = -1; H.appt = -1; APPT_MODE = mc_opt("appt", 0);
     w_obs_clear();
     if (!S0.w) { snap_init(&S0); for (int i = 0; i < MAXSEQ; i++) { snap_init(&SN[i][0]); snap_init(&SN[i][1]); } }
     snap_save(&S0);
